@@ -30,6 +30,12 @@ Restrict(f, S) == [x \in S |-> f[x]]
 Incr(rf, r) == [rf EXCEPT ![Abs(r)] = @ + 1]
 Decr(rf, r) == [rf EXCEPT ![Abs(r)] = IF @ > 0 THEN @ - 1 ELSE 0]   \* decref floors at zero
 
+(* switches for NEGATIVE configurations (MC_*_neg*.cfg override them with FALSE):
+   a judge that cannot tell these design errors from the real design is vacuous *)
+GCClearsCache == TRUE        \* collect_garbage resets the computed table
+FoaIncrefsHigh == TRUE       \* find_or_add increments the count of the high child too
+SwapClearsCache == TRUE      \* swap resets the computed table (redundant in the model: the collections around it already do)
+
 InitMgr(names) ==
   [names |-> names, order |-> <<>>, succ |-> (1 :> <<0, 0, 0>>), ref |-> (1 :> 1),
    cache |-> Empty, minfree |-> 2, lastlen |-> -1]
@@ -48,7 +54,8 @@ FindOrAdd(s, i, v0, w0) ==
           IF ex # {} THEN [s |-> s, r |-> sg * (CHOOSE n \in ex : TRUE)]
           ELSE LET u == s.minfree
                    s1 == [s EXCEPT !.succ = @ @@ (u :> <<i, v, w>>),
-                                   !.ref = Incr(Incr(@ @@ (u :> 0), v), w)]
+                                   !.ref = IF FoaIncrefsHigh THEN Incr(Incr(@ @@ (u :> 0), v), w)
+                                           ELSE Incr(@ @@ (u :> 0), v)]
                    s2 == [s1 EXCEPT !.minfree = NextFree(s1, u)]
                IN [s |-> s2, r |-> sg * u]
 
@@ -87,7 +94,7 @@ GCLoop(s, unused) ==
        IN GCLoop(s1, (unused \ {u}) \cup add)
 CollectGarbage(s, roots) ==
   LET unused == {n \in {Abs(r) : r \in roots} : n # 1 /\ n \in DOMAIN s.ref /\ s.ref[n] = 0}
-  IN [GCLoop(s, unused) EXCEPT !.cache = Empty]
+  IN IF GCClearsCache THEN [GCLoop(s, unused) EXCEPT !.cache = Empty] ELSE GCLoop(s, unused)
 CollectAll(s) == CollectGarbage(s, DOMAIN s.succ)
 
 (* swap(x, x+1), transcribed phase by phase:
@@ -126,7 +133,7 @@ SwapNoCollect(s, x) ==   \* phases 2-6, on an already collected table (the all_l
                                              ELSE sA.succ[n]]]
       res == SwapLoop(sB, LX \ indep, x, y, {})
       o == s.order
-      sC == [res.s EXCEPT !.order = SwapAt(o, x + 1), !.cache = Empty]
+      sC == [res.s EXCEPT !.order = SwapAt(o, x + 1), !.cache = IF SwapClearsCache THEN Empty ELSE @]
   IN CollectGarbage(sC, res.garbage \cap DOMAIN sC.succ)
 Swap(s, x) == SwapNoCollect(CollectAll(s), x)
 
